@@ -42,7 +42,7 @@ Inductive ev :=
 | EvRun (x : nat) | EvEnd (x : nat)
 | EvRead (x : nat) (v : Z) (tracked : bool)
 | EvEff (x : nat) (v : Z) | EvLog (v : Z) | EvCleanup (l : nat) | EvCtx (ty : nat) (v : option Z)
-| EvBatch (start : bool).
+| EvBatch (start : bool) | EvReg (l : nat) | EvTrack (x : nat).
 
 Record state := State {
   nodes : gmap nat node;
@@ -118,6 +118,7 @@ Definition create_empty (s : state) : res nat :=
   | None => Ok id s1
   | Some c =>
       if alive c s1 then Ok id (upd c (fun n => nd_children (n_children n ++ [id]) n) s1)
+      else if fx then Ok id (set_next (S id) s)      (* owner already disposed: born dead *)
       else Err (Runtime 1) s1
   end.
 
@@ -235,10 +236,10 @@ Definition eqk (k : ckind) (new old : Z) : bool :=
 
 Definition provide (ty : nat) (v : Z) (s : state) : res unit :=
   match current s with
-  | None => Err (Runtime 12) s
+  | None => if fx then Ok tt s else Err (Runtime 12) s
   | Some c =>
       match nodes s !! c with
-      | None => Err (Runtime 12) s
+      | None => if fx then Ok tt s else Err (Runtime 12) s
       | Some nd =>
           if existsb (fun p => Nat.eqb (fst p) ty) (n_context nd) then Err DupContext s
           else Ok tt (upd c (fun n => nd_context (n_context n ++ [(ty, v)]) n) s)
@@ -271,8 +272,10 @@ Fixpoint use_ctx_from (g : nat) (ty : nat) (id : nat) (first : bool) (s : state)
   end.
 Definition try_use_context (ty : nat) (s : state) : res (option Z) :=
   match current s with
-  | None => Err (Runtime 13) s
-  | Some c => use_ctx_from (S (size (nodes s))) ty c true s
+  | None => if fx then Ok None s else Err (Runtime 13) s
+  | Some c =>
+      if fx && negb (alive c s) then Ok None s
+      else use_ctx_from (S (size (nodes s))) ty c true s
   end.
 
 (* signals.rs update_silent with a plain replacement *)
@@ -357,9 +360,14 @@ with exec1 (f : nat) (en : env) (st : stmt) (s : state) {struct f} : res env :=
           Ok en (set_tracker prev s1)
       | SOnCleanup l ss =>
           match current s with
-          | None => Ok en s
+          | None => Ok en (emit (EvReg l) s)
           | Some c =>
-              if alive c s then Ok en (upd c (fun n => nd_cleanups (n_cleanups n ++ [Cleanup l en ss]) n) s)
+              if alive c s then Ok en (upd c (fun n => nd_cleanups (n_cleanups n ++ [Cleanup l en ss]) n) (emit (EvReg l) s))
+              else if fx then
+                (* the scope is already disposed: the cleanup runs at once, untracked *)
+                let prevt := tracker s in
+                do _, s1 <- exec f' en ss (emit (EvCleanup l) (set_tracker None (emit (EvReg l) s)));
+                Ok en (set_tracker prevt s1)
               else Err (Runtime 10) s
           end
       | SProvide ty e =>
@@ -379,7 +387,7 @@ with exec1 (f : nat) (en : env) (st : stmt) (s : state) {struct f} : res env :=
           end
       | STrack x =>
           match lookup_env x en with
-          | Some (BNode id) => Ok en (track id s)
+          | Some (BNode id) => Ok en (emit (EvTrack x) (track id s))
           | _ => Err IllFormed s
           end
       | SIf e a b =>
@@ -419,7 +427,7 @@ with run_body (f : nat) (c : clo) (s : state) {struct f} : res Z :=
           let tr := fold_left (fun (r : option state) x =>
                       match r with
                       | Some s => match lookup_env x (c_env c) with
-                                  | Some (BNode id) => Some (track id s)
+                                  | Some (BNode id) => Some (emit (EvTrack x) (track id s))
                                   | _ => None
                                   end
                       | None => None
